@@ -100,6 +100,10 @@ def run_configs(ctx, module, harness_bin, configs, actions, what_prefix, harness
         report(ctx, rep, cfg, args, what_prefix)
         if ctx.violations:
             return
+        try:
+            os.remove(cases)           # hundreds of megabytes; failing programs are in replays/
+        except OSError:
+            pass
 
 
 def run_harness(ctx, exe, cases, args, label):
